@@ -17,7 +17,7 @@
      outside the domain ([Precond]; undefined behaviour in the release build);
    - the container functions, transcribed by hand (the fingerprints of the bodies they were written
      against are in [hand_modelled]): vectors are lists with the accesses AS CODED (an index that the
-     C code does not check is a [MemErr]); sets / maps are lists sorted by RCPBasicKeyLess
+     C code does not check is a [MemErr]; since the repair of vecbasic_get / set / erase only setbasic_get is left); sets / maps are lists sorted by RCPBasicKeyLess
      (Expr.Cmp.expr_keyless) with std::set / std::map insertion semantics.
    No proofs here. *)
 From SE Require Export Base.Prelude C42.CWrapDefs Expr.Cmp.
@@ -61,6 +61,11 @@ Definition SYMENGINE_NOT_IMPLEMENTED : N := 3.
 Definition SYMENGINE_DOMAIN_ERROR : N := 4.
 Definition SYMENGINE_PARSE_ERROR : N := 5.
 Definition SYMENGINE_SERIALIZATION_ERROR : N := 6.
+(* the text of CWRAPPER_BEGIN / CWRAPPER_END that [fwd_step] (WFull) transcribes: success returns
+   SYMENGINE_NO_EXCEPTION, a SymEngineException returns its error_code(), anything else SYMENGINE_RUNTIME_ERROR *)
+Definition modelled_cwrapper_begin : string := "try{".
+Definition modelled_cwrapper_end : string :=
+  "returnSYMENGINE_NO_EXCEPTION;}catch(SymEngineException&e){returne.error_code();}catch(...){returnSYMENGINE_RUNTIME_ERROR;}".
 Definition code_of_exn (cls : N) : N :=
   if (cls =? EXN_NOTIMPL)%N then SYMENGINE_NOT_IMPLEMENTED
   else if (cls =? EXN_DOMAIN)%N then SYMENGINE_DOMAIN_ERROR
@@ -237,11 +242,24 @@ Definition ok_outcome (f : cfun) (r : cval) : outcome :=
   | ROther => match cf_out f, r with ORet, CD b => RetDbl b | _, _ => Unmodelled end
   end.
 
+(* if (p == 0) { return code; }  -- the first test that fires *)
+Fixpoint zguard_fires (actuals : list arg) (l : list (nat * N)) : option N :=
+  match l with
+  | [] => None
+  | (i, code) :: r =>
+      match nth_error actuals i with
+      | Some (AZ 0%Z) => Some code
+      | _ => zguard_fires actuals r
+      end
+  end.
+
 Definition fwd_step (core : oracle) (f : cfun) (k : N) (st : state) (actuals : list arg) : outcome * state :=
   if negb (actuals_match (cf_params f) actuals) then (Unmodelled, st)
   else if negb (all_hold guard_holds st actuals (cf_guards f)) then (RetCode SYMENGINE_RUNTIME_ERROR, st)
   else if negb (all_hold class_holds st actuals (cf_casts f)) then (Precond, st)
-  else
+  else match zguard_fires actuals (cf_zguards f) with
+  | Some code => (RetCode code, st)
+  | None =>
     match resolve_all st actuals (cf_args f) with
     | None => (Unmodelled, st)
     | Some cargs =>
@@ -269,15 +287,16 @@ Definition fwd_step (core : oracle) (f : cfun) (k : N) (st : state) (actuals : l
             end
         | _ => (Unmodelled, st)
         end
-    end.
+    end
+  end.
 
 (* ------------------------------------------------------------------ the container functions, by hand *)
 (* (name, fingerprint of the body this transcription was written against) *)
 Definition hand_modelled : list (string * string) := [
   ("vecbasic_push_back", "2ca08b06240315f9");
-  ("vecbasic_get", "89ad9184d64ae867");
-  ("vecbasic_set", "392841ea7ab5ccd9");
-  ("vecbasic_erase", "c7d749e6b5f4bf7b");
+  ("vecbasic_get", "c99a3943bc88ad23");
+  ("vecbasic_set", "1eb0123af7c495fc");
+  ("vecbasic_erase", "88fd269ba4d4a12b");
   ("vecbasic_size", "aaaf7003c692b1ab");
   ("setbasic_insert", "ca66a04faefc3c82");
   ("setbasic_get", "1e0533a4d623f178");
@@ -300,7 +319,7 @@ Definition h_vec_push_back (st : state) (actuals : list arg) : outcome * state :
       end
   | _ => (Unmodelled, st)
   end.
-(* CWRAPPER_BEGIN SYMENGINE_ASSERT(n < self->m.size()) [compiled out]; basic_rcp(result) = self->m[n]; CWRAPPER_END *)
+(* CWRAPPER_BEGIN if (n >= self->m.size()) { return SYMENGINE_RUNTIME_ERROR; } basic_rcp(result) = self->m[n]; CWRAPPER_END *)
 Definition h_vec_get (st : state) (actuals : list arg) : outcome * state :=
   match actuals with
   | [AV i; AZ n; AB j] =>
@@ -308,6 +327,7 @@ Definition h_vec_get (st : state) (actuals : list arg) : outcome * state :=
       | Some l =>
           if (n <? 0)%Z then (Unmodelled, st)
           else if negb (j <? length (s_b st))%nat then (Unmodelled, st)
+          else if (length l <=? Z.to_nat n)%nat then (RetCode SYMENGINE_RUNTIME_ERROR, st)
           else match nth_error l (Z.to_nat n) with
                | Some x => (RetCode SYMENGINE_NO_EXCEPTION, set_b st j x)
                | None => (MemErr (Z.to_N n) (nlen l), st)
@@ -316,13 +336,14 @@ Definition h_vec_get (st : state) (actuals : list arg) : outcome * state :=
       end
   | _ => (Unmodelled, st)
   end.
-(* CWRAPPER_BEGIN SYMENGINE_ASSERT(n < self->m.size()) [compiled out]; self->m[n] = basic_rcp(s); CWRAPPER_END *)
+(* CWRAPPER_BEGIN if (n >= self->m.size()) { return SYMENGINE_RUNTIME_ERROR; } self->m[n] = basic_rcp(s); CWRAPPER_END *)
 Definition h_vec_set (st : state) (actuals : list arg) : outcome * state :=
   match actuals with
   | [AV i; AZ n; AB j] =>
       match nth_error (s_v st) i, nth_error (s_b st) j with
       | Some l, Some v =>
           if (n <? 0)%Z then (Unmodelled, st)
+          else if (length l <=? Z.to_nat n)%nat then (RetCode SYMENGINE_RUNTIME_ERROR, st)
           else if (Z.to_nat n <? length l)%nat
                then (RetCode SYMENGINE_NO_EXCEPTION, set_v st i (upd_nth l (Z.to_nat n) v))
                else (MemErr (Z.to_N n) (nlen l), st)
@@ -330,13 +351,14 @@ Definition h_vec_set (st : state) (actuals : list arg) : outcome * state :=
       end
   | _ => (Unmodelled, st)
   end.
-(* CWRAPPER_BEGIN SYMENGINE_ASSERT(n < self->m.size()) [compiled out]; self->m.erase(self->m.begin() + n); CWRAPPER_END *)
+(* CWRAPPER_BEGIN if (n >= self->m.size()) { return SYMENGINE_RUNTIME_ERROR; } self->m.erase(self->m.begin() + n); CWRAPPER_END *)
 Definition h_vec_erase (st : state) (actuals : list arg) : outcome * state :=
   match actuals with
   | [AV i; AZ n] =>
       match nth_error (s_v st) i with
       | Some l =>
           if (n <? 0)%Z then (Unmodelled, st)
+          else if (length l <=? Z.to_nat n)%nat then (RetCode SYMENGINE_RUNTIME_ERROR, st)
           else if (Z.to_nat n <? length l)%nat
                then (RetCode SYMENGINE_NO_EXCEPTION, set_v st i (remove_nth l (Z.to_nat n)))
                else (MemErr (Z.to_N n) (nlen l), st)
